@@ -27,6 +27,7 @@ import (
 // decision must be dropped before the next first-bin is evaluated.
 type bisyncRdbReplayState struct {
 	skippedKey string
+	skipping   bool
 }
 
 // bisyncRdbGlobalTarget describes one cluster primary that should receive a
@@ -52,22 +53,18 @@ func newBisyncRdbReplayState() *bisyncRdbReplayState {
 // beginKey starts a new logical key and clears the previous key's skip state.
 func (rs *bisyncRdbReplayState) beginKey() {
 	rs.skippedKey = ""
+	rs.skipping = false
 }
 
 // skipKey records that all following bins for the current split key should be ignored.
 func (rs *bisyncRdbReplayState) skipKey(key string) {
-	if key == "" {
-		return
-	}
 	rs.skippedKey = key
+	rs.skipping = true
 }
 
 // shouldSkip reports whether a prior bin already marked the key as ignored.
 func (rs *bisyncRdbReplayState) shouldSkip(key string) bool {
-	if key == "" {
-		return false
-	}
-	return rs.skippedKey == key
+	return rs.skipping && rs.skippedKey == key
 }
 
 // bisyncRdbTargetKey normalizes an RDB key so it matches the key shape used by
@@ -150,6 +147,16 @@ func (ro *RedisOutput) bisyncRdbUseRestore(e *rdb.BinEntry) bool {
 	return true
 }
 
+// bisyncRdbIsKeyedEntry reports whether the entry is a key of the keyspace
+// (every object except functions and AUX fields); the empty string is a valid key.
+func bisyncRdbIsKeyedEntry(e *rdb.BinEntry) bool {
+	if e == nil || e.ObjectParser == nil {
+		return false
+	}
+	t := e.ObjectParser.Type()
+	return t != rdb.RdbObjectFunction && t != rdb.RdbObjectAux
+}
+
 func bisyncRdbRequiresRestore(e *rdb.BinEntry) bool {
 	return e != nil && e.ObjectParser != nil && e.ObjectParser.Type() == rdb.RdbObjectModule
 }
@@ -230,7 +237,7 @@ func captureBisyncRdbExpandedCommands(e *rdb.BinEntry, sourceKey []byte, targetK
 		return nil
 	})
 
-	if e.ExpireAt != 0 && len(targetKey) > 0 {
+	if e.ExpireAt != 0 && bisyncRdbIsKeyedEntry(e) {
 		// Expanded native commands do not carry TTL state, so append PEXPIRE to
 		// preserve the original expiration semantics.
 		cmds = append(cmds, bisyncAofCommand{
@@ -504,7 +511,7 @@ func (ro *RedisOutput) buildBisyncRdbReplayUnit(conn client.Redis, fullSyncOffse
 
 	targetKey := ro.bisyncRdbTargetKey(e.Key)
 	globalStandaloneEntry := !ro.cfg.Redis.IsCluster() && (e.ObjectParser.Type() == rdb.RdbObjectFunction || e.ObjectParser.Type() == rdb.RdbObjectAux)
-	hasBusinessKey := len(targetKey) > 0 && !globalStandaloneEntry
+	hasBusinessKey := bisyncRdbIsKeyedEntry(e)
 	targetKeyStr := util.BytesToString(targetKey)
 	if hasBusinessKey && e.FirstBin() {
 		state.beginKey()
@@ -571,7 +578,7 @@ func (ro *RedisOutput) buildBisyncRdbReplayUnit(conn client.Redis, fullSyncOffse
 	if ro.cfg.Redis.IsCluster() {
 		// Cluster replay still needs a routing slot even though the unit may have
 		// been derived from transformed key bytes.
-		if len(targetKey) == 0 && !globalStandaloneEntry {
+		if !hasBusinessKey && !globalStandaloneEntry {
 			return nil, false, fmt.Errorf("cluster bisync rdb entry has no key")
 		}
 		slot = redispkg.KeyToSlot(util.BytesToString(targetKey))
